@@ -75,6 +75,7 @@ class Engine(object):
     self.by_ident = {}
     self.stopping = False
     self.time_jumps = 0
+    self._guard = 0
 
   # -- thread creation ---------------------------------------------------
   def spawn(self, target, name=None, facade=None):
@@ -162,7 +163,16 @@ class Engine(object):
     now = self.sim.now
     for t in self.threads:
       if t.state == BLOCKED:
-        if t.pred is not None and t.pred():
+        try:
+          hit = t.pred is not None and t.pred()
+        except Exception:
+          # the predicate itself fails (e.g. select() on a socket that was
+          # closed meanwhile): wake the thread so that it meets the
+          # exception in its own context
+          t.state = RUNNABLE
+          t.woke_by = "exc"
+          continue
+        if hit:
           t.state = RUNNABLE
           t.woke_by = "pred"
         elif t.deadline is not None and t.deadline <= now:
@@ -170,7 +180,17 @@ class Engine(object):
           t.woke_by = "timeout"
 
   def _runnable(self):
-    """the runnable set; advances virtual time when it would be empty"""
+    """the runnable set; advances virtual time when it would be empty.
+    Predicates and simulator events may execute traced code (e.g.
+    Connection.fileno): no pre-emption while the engine does its own
+    bookkeeping."""
+    self._guard += 1
+    try:
+      return self._runnable_inner()
+    finally:
+      self._guard -= 1
+
+  def _runnable_inner(self):
     sim = self.sim
     while True:
       sim.run_due()
@@ -247,7 +267,7 @@ class Engine(object):
   def preempt(self, frame=None):
     """a yield point reached by the running thread"""
     t = self.me()
-    if t is None:
+    if t is None or self._guard:
       return
     if self.stopping:
       self._park_forever()
@@ -280,8 +300,13 @@ class Engine(object):
     t = self.me()
     if t is None:
       raise RuntimeError("block() outside a controlled thread")
-    if pred is not None and pred():
-      return True
+    if pred is not None:
+      self._guard += 1
+      try:
+        if pred():
+          return True
+      finally:
+        self._guard -= 1
     t.pred = pred
     t.deadline = None if timeout is None else self.sim.now + max(0.0, timeout)
     t.state = BLOCKED
@@ -340,7 +365,7 @@ class Engine(object):
         box.append(g)
         return True
       return False
-    if self.block(pred, timeout):
+    if self.block(pred, timeout) and box:
       return box[-1]
     g = sim._ready(rl, wl, xl)
     if g is not None:
